@@ -159,3 +159,230 @@ def build(r):
     desc = dict(cls=cls, little=le, nsym=nsyms_total, symoffset=symoffset, nbuckets=nb, bloom_size=bloom_size, bloom_shift=bloom_shift,
                 sysv_nbucket=snb, sysv_tail=tail)
     return bytes(body), desc
+
+
+# ------------------------------------------------------------------------------------------------------------------
+def build_dynamic(r):
+    """A small but complete dynamically linked image written by an own 'linker': two PT_LOADs with *different*
+    p_vaddr - p_offset, PT_DYNAMIC, .dynsym/.dynstr/.hash/.gnu.hash, REL or RELA relocation tables (+ optional RELR),
+    a .dynamic table with duplicated tag types, tail-merged strings, junk after the terminator, tables placed in
+    seeded order with seeded padding.  -> (image bytes, description)."""
+    cls = r.choice([32, 64])
+    le = r.random() < 0.7
+    bo = 'little' if le else 'big'
+    w = 4 if cls == 32 else 8
+    rela = r.random() < 0.5
+    nsym = r.choice([1, 2, 3, 6, 10])
+    nundef = min(r.choice([0, 1, 2, nsym]), nsym)
+    names = gen_names(r, nsym)
+    nb = r.choice([1, 2, 3, 5])
+    bloom_size = r.choice([1, 2, 3, 4])
+    bloom_shift = r.choice([5, 6, 13])
+    unh = names[:nundef]
+    hashed = sorted(names[nundef:], key=lambda n: elfraw.gnu_hash(n) % nb)
+    order = unh + hashed
+    symoffset = 1 + nundef
+    # .dynstr with tail merging: some names are stored only as the tail of a longer string
+    strtab = bytearray(b'\0')
+    offs = {}
+    libs = ['libc.so.6', 'libm.so.6', 'libfoo_%x.so' % r.getrandbits(12)][:r.choice([1, 2, 3])]
+    soname = r.choice([None, 'libself.so.1'])
+    rpath = r.choice([None, '/opt/lib:$ORIGIN'])
+    for nm in order:
+        if r.random() < 0.25:
+            pre = 'pre_%x_' % r.getrandbits(8)
+            offs[nm] = len(strtab) + len(pre.encode())
+            strtab += (pre + nm).encode('utf-8') + b'\0'
+        else:
+            offs[nm] = len(strtab)
+            strtab += nm.encode('utf-8') + b'\0'
+    soff = {}
+    for s in libs + [x for x in (soname, rpath) if x]:
+        soff[s] = len(strtab)
+        strtab += s.encode() + b'\0'
+    syms = [_sym(cls, bo, 0, 0, 0, 0, 0, 0)]
+    for i, nm in enumerate(order):
+        undef = i < nundef
+        syms.append(_sym(cls, bo, offs[nm], 0 if undef else 0x2000 + 16 * i, 8, 0x12 if not undef else 0x10, 0, 0 if undef else 7))
+    dynsym = b''.join(syms)
+    ntot = len(syms)
+    symsize = 16 if cls == 32 else 24
+    # hash tables
+    bloom = [0] * bloom_size
+    buckets = [0] * nb
+    chain = []
+    for k, nm in enumerate(hashed):
+        h = elfraw.gnu_hash(nm)
+        idx = symoffset + k
+        b = h % nb
+        if buckets[b] == 0:
+            buckets[b] = idx
+        last = (k == len(hashed) - 1) or (elfraw.gnu_hash(hashed[k + 1]) % nb != b)
+        chain.append((h & ~1) | (1 if last else 0))
+        bloom[(h // cls) % bloom_size] |= (1 << (h % cls)) | (1 << ((h >> bloom_shift) % cls))
+    gnu = nb.to_bytes(4, bo) + symoffset.to_bytes(4, bo) + bloom_size.to_bytes(4, bo) + bloom_shift.to_bytes(4, bo) + \
+        b''.join(x.to_bytes(w, bo) for x in bloom) + b''.join(x.to_bytes(4, bo) for x in buckets) + b''.join(x.to_bytes(4, bo) for x in chain)
+    snb = r.choice([1, 2, 3])
+    sb = [0] * snb
+    sc = [0] * ntot
+    for idx in range(1, ntot):
+        b = elfraw.sysv_hash(order[idx - 1]) % snb
+        sc[idx] = sb[b]
+        sb[b] = idx
+    sysv = snb.to_bytes(4, bo) + ntot.to_bytes(4, bo) + b''.join(x.to_bytes(4, bo) for x in sb) + b''.join(x.to_bytes(4, bo) for x in sc)
+    have_gnu = r.random() < 0.75 and bool(hashed)     # a GNU table is only emitted when it hashes something
+    have_sysv = (not have_gnu) or r.random() < 0.6
+
+    def rel_entries(n):
+        out = b''
+        for i in range(n):
+            sym = r.randrange(0, ntot)
+            typ = r.choice([1, 6, 7, 8])
+            info = (sym << 8 | typ) if cls == 32 else (sym << 32 | typ)
+            out += (0x3000 + 8 * i).to_bytes(w, bo) + info.to_bytes(w, bo)
+            if rela:
+                out += (r.choice([0, 1, 16, (1 << (8 * w)) - 8])).to_bytes(w, bo)
+        return out
+    reldyn = rel_entries(r.choice([0, 1, 3, 6]))
+    relplt = rel_entries(r.choice([0, 1, 2, 5]))
+    relr = b''
+    if r.random() < 0.35:
+        words = [0x4000]
+        for _ in range(r.choice([0, 1, 2])):
+            words.append(r.getrandbits(8 * w - 1) << 1 | 1)
+        if r.random() < 0.5:
+            words.append(0x8000)
+        relr = b''.join(x.to_bytes(w, bo) for x in words)
+    relsz = 3 * w if rela else 2 * w
+    # ---- layout: segment 1 (read-only tables) then segment 2 (.dynamic, init_array)
+    ehsize = 52 if cls == 32 else 64
+    phsize = 32 if cls == 32 else 56
+    shsize = 40 if cls == 32 else 64
+    body = bytearray(bytes(ehsize + 3 * phsize))
+    tabs = [('.dynsym', dynsym), ('.dynstr', bytes(strtab))]
+    if have_sysv:
+        tabs.append(('.hash', sysv))
+    if have_gnu:
+        tabs.append(('.gnu.hash', gnu))
+    if reldyn:
+        tabs.append(('.rel.dyn', reldyn))
+    if relplt:
+        tabs.append(('.rel.plt', relplt))
+    if relr:
+        tabs.append(('.relr.dyn', relr))
+    r.shuffle(tabs)
+    place = {}
+    for nm, data in tabs:
+        body += bytes(r.choice([0, 0, 8, 24]))
+        body += bytes(-len(body) % 8)
+        place[nm] = (len(body), len(data))
+        body += data
+    seg1_end = len(body)
+    body += bytes(-len(body) % 16) + bytes(r.choice([0, 16, 64]))
+    seg2_off = len(body)
+    base1 = r.choice([0, 0x10000, 0x400000])
+    bias2 = base1 + r.choice([0x1000, 0x200000, 0x10000])          # p_vaddr - p_offset differs between the two segments
+
+    def va1(off):
+        return base1 + off
+
+    def va2(off):
+        return bias2 + off
+    init_off = len(body)
+    body += bytes(2 * w)
+    body += bytes(-len(body) % 8)
+    dyn_off = len(body)
+    tags = []
+    for lb in libs:
+        tags.append((1, soff[lb]))
+    if soname:
+        tags.append((14, soff[soname]))
+    if rpath:
+        tags.append((r.choice([15, 29]), soff[rpath]))
+    if have_sysv:
+        tags.append((4, va1(place['.hash'][0])))
+    if have_gnu:
+        tags.append((0x6ffffef5, va1(place['.gnu.hash'][0])))
+    tags += [(5, va1(place['.dynstr'][0])), (6, va1(place['.dynsym'][0])), (10, len(strtab)), (11, symsize)]
+    if reldyn:
+        tags += [(7 if rela else 17, va1(place['.rel.dyn'][0])), (8 if rela else 18, len(reldyn)), (9 if rela else 19, relsz)]
+    if relplt:
+        tags += [(2, len(relplt)), (20, 7 if rela else 17), (23, va1(place['.rel.plt'][0]))]
+    if relr:
+        tags += [(36, va1(place['.relr.dyn'][0])), (35, len(relr)), (37, w)]
+    tags += [(25, va2(init_off)), (27, 2 * w), (21, 0)]
+    r.shuffle(tags)
+    tags.append((0, 0))
+    junk = [(r.choice([1, 6, 25]), r.getrandbits(16)) for _ in range(r.choice([0, 1, 3]))] + [(0, 0)]
+    dyn_real = b''.join(t.to_bytes(w, bo) + v.to_bytes(w, bo) for t, v in tags)
+    dynamic = dyn_real + b''.join(t.to_bytes(w, bo) + v.to_bytes(w, bo) for t, v in junk)
+    body += dynamic
+    seg2_end = len(body)
+    body += bytes(-len(body) % 8)
+    # sections
+    secnames = ['', '.dynsym', '.dynstr', '.hash', '.gnu.hash', '.rel.dyn', '.rel.plt', '.relr.dyn', '.dynamic', '.shstrtab']
+    present = [''] + [n for n in secnames[1:8] if n in place] + ['.dynamic', '.shstrtab']
+    shstr = bytearray(b'\0')
+    noff = {}
+    for n in present[1:]:
+        real = n
+        if n == '.rel.dyn' and rela:
+            real = '.rela.dyn'
+        if n == '.rel.plt' and rela:
+            real = '.rela.plt'
+        noff[n] = len(shstr)
+        shstr += real.encode() + b'\0'
+    shstr_off = len(body)
+    body += shstr
+    body += bytes(-len(body) % 8)
+    shoff = len(body)
+    index = {n: i for i, n in enumerate(present)}
+
+    def shdr(name, typ, flags, addr, off, size, link, info, align, entsize):
+        f = [noff.get(name, 0), typ, flags, addr, off, size, link, info, align, entsize]
+        if cls == 32:
+            return b''.join(x.to_bytes(4, bo) for x in f)
+        ws = [4, 4, 8, 8, 8, 8, 4, 4, 8, 8]
+        return b''.join(x.to_bytes(n, bo) for x, n in zip(f, ws))
+    body += bytes(shsize)
+    for n in present[1:]:
+        if n == '.dynsym':
+            body += shdr(n, 11, 2, va1(place[n][0]), place[n][0], place[n][1], index['.dynstr'], 1, 8, symsize)
+        elif n == '.dynstr':
+            body += shdr(n, 3, 2, va1(place[n][0]), place[n][0], place[n][1], 0, 0, 1, 0)
+        elif n == '.hash':
+            body += shdr(n, 5, 2, va1(place[n][0]), place[n][0], place[n][1], index['.dynsym'], 0, 4, 4)
+        elif n == '.gnu.hash':
+            body += shdr(n, 0x6ffffff6, 2, va1(place[n][0]), place[n][0], place[n][1], index['.dynsym'], 0, 8, 0)
+        elif n in ('.rel.dyn', '.rel.plt'):
+            body += shdr(n, 4 if rela else 9, 2, va1(place[n][0]), place[n][0], place[n][1], index['.dynsym'], 0, w, relsz)
+        elif n == '.relr.dyn':
+            body += shdr(n, 19, 2, va1(place[n][0]), place[n][0], place[n][1], 0, 0, w, w)
+        elif n == '.dynamic':
+            body += shdr(n, 6, 3, va2(dyn_off), dyn_off, len(dynamic), index['.dynstr'], 0, w, 2 * w)
+        elif n == '.shstrtab':
+            body += shdr(n, 3, 0, 0, shstr_off, len(shstr), 0, 0, 1, 0)
+    # program headers
+
+    def phdr(typ, flags, off, vaddr, filesz, memsz, align):
+        if cls == 32:
+            return b''.join(x.to_bytes(4, bo) for x in (typ, off, vaddr, vaddr, filesz, memsz, flags, align))
+        return typ.to_bytes(4, bo) + flags.to_bytes(4, bo) + b''.join(x.to_bytes(8, bo) for x in (off, vaddr, vaddr, filesz, memsz, align))
+    ph = phdr(1, 5, 0, va1(0), seg1_end, seg1_end, 0x1000) + \
+        phdr(1, 6, seg2_off, va2(seg2_off), seg2_end - seg2_off, seg2_end - seg2_off + r.choice([0, 64]), 0x1000) + \
+        phdr(2, 6, dyn_off, va2(dyn_off), len(dynamic), len(dynamic), w)
+    ident = b'\x7fELF' + bytes([1 if cls == 32 else 2, 1 if le else 2, 1, 0]) + bytes(8)
+    machine = (62 if rela else 183) if cls == 64 else (3 if not rela else 40)
+    if cls == 32:
+        eh = ident + (3).to_bytes(2, bo) + machine.to_bytes(2, bo) + (1).to_bytes(4, bo) + bytes(4) + ehsize.to_bytes(4, bo) + shoff.to_bytes(4, bo) + \
+            bytes(4) + ehsize.to_bytes(2, bo) + phsize.to_bytes(2, bo) + (3).to_bytes(2, bo) + shsize.to_bytes(2, bo) + \
+            len(present).to_bytes(2, bo) + index['.shstrtab'].to_bytes(2, bo)
+    else:
+        eh = ident + (3).to_bytes(2, bo) + machine.to_bytes(2, bo) + (1).to_bytes(4, bo) + bytes(8) + ehsize.to_bytes(8, bo) + shoff.to_bytes(8, bo) + \
+            bytes(4) + ehsize.to_bytes(2, bo) + phsize.to_bytes(2, bo) + (3).to_bytes(2, bo) + shsize.to_bytes(2, bo) + \
+            len(present).to_bytes(2, bo) + index['.shstrtab'].to_bytes(2, bo)
+    body[:ehsize] = eh
+    body[ehsize:ehsize + len(ph)] = ph
+    desc = dict(cls=cls, little=le, rela=rela, nsym=ntot, have_gnu=have_gnu, have_sysv=have_sysv, relr=bool(relr),
+                ntags=len(tags), libs=len(libs))
+    return bytes(body), desc
